@@ -115,6 +115,12 @@ def diff(exp, got, refs, spans, path="$"):
                     return d
             if exp[3] != got[3][:len(exp[3])] and diff(exp[3], got[3][:len(exp[3])], refs, spans, path + "/tr[3]"):
                 return "%s: attributes written on the reference are not the first attributes of the bound type" % path
+            # ... and what follows them is what is written on the types of the aliases of the chain, outermost first
+            chain = refs.get("__alias_chain__", {}).get((refs.get(exp[4][2]) or (None, None))[0])
+            if chain is not None:
+                tail = [(x[1], list(x[2])) for x in got[3][len(exp[3]):]]
+                if tail != chain:
+                    return "%s: a reference through aliases carries %s after its own attributes, the aliases' types carry %s" % (path, tail, chain)
             return None
         if got and got[0] == "ref" and exp and exp[0] in ("prim", "seq", "dict", "res"):
             return "%s: %s became a reference" % (path, exp[0])
@@ -153,6 +159,15 @@ def make_cases(ck, n, styles, seed_rng, mutate=None):
             # a file without a module declaration: only file attributes, or nothing at all
             g = slicegen.Gen(rng, depth=1)
             prog["files"].insert(rng.randrange(len(prog["files"]) + 1), {"path": "extra", "module": None, "fattrs": g.attrs(1.0) + g.attrs(0.5), "mattrs": [], "defs": []})
+        aliases = {d["scoped"]: d for f in prog["files"] for d in f["defs"] if d["kind"] == "alias"}
+
+        def chain_attrs(sid, depth=0):
+            t = aliases[sid]["type"]
+            out = [(d_, [x.encode().hex() or "-" for x in args]) for d_, args in t.get("attrs", [])]
+            if t["k"] == "named" and t.get("kind") == "alias" and t.get("id") in aliases and depth < 50:
+                out += chain_attrs(t["id"], depth + 1)
+            return out
+        alias_chain = {sid: chain_attrs(sid) for sid in aliases}
         for style in styles:
             c = Case()
             c.prog, c.style, c.files, c.what = prog, style, [], what
@@ -161,7 +176,7 @@ def make_cases(ck, n, styles, seed_rng, mutate=None):
                 tree = pr.file(f)
                 text, locs, crlf = layout.layout(rng, pr.toks, style)
                 exp = layout.resolve(tree, locs)
-                refs = {}
+                refs = {"__alias_chain__": alias_chain}
                 for (a, b), info in pr.refs.items():
                     refs["%d:%d-%d:%d" % (locs[a][0] + locs[b][1])] = info
                 trrefs = {"%d:%d-%d:%d" % (locs[a][0] + locs[b][1]): info for (a, b), info in pr.trrefs.items()}
